@@ -75,6 +75,11 @@ func NewFloatFromString(typ *types.FloatType, s string) (*Float, error) {
 			// > The 80-bit format used by x86 is represented as 0xK followed by 20
 			// > hexadecimal digits.
 			hex := strings.TrimPrefix(s, "0xK")
+			const maxHexLen = 20
+			if len(hex) < maxHexLen {
+				// pad with leading zeroes (e.g. for case like `0xK01`)
+				hex = strings.Repeat("0", maxHexLen-len(hex)) + hex
+			}
 			const hexLen = 8
 			part1 := hex[:hexLen/2]
 			part2 := hex[hexLen/2:]
@@ -122,6 +127,10 @@ func NewFloatFromString(typ *types.FloatType, s string) (*Float, error) {
 			// > represented by 0xM followed by 32 hexadecimal digits.
 			hex := strings.TrimPrefix(s, "0xM")
 			const maxHexLen = 32
+			if len(hex) < maxHexLen {
+				// pad with leading zeroes (e.g. for case like `0xM01`)
+				hex = strings.Repeat("0", maxHexLen-len(hex)) + hex
+			}
 			part1 := hex[:maxHexLen/2]
 			part2 := hex[maxHexLen/2:]
 			a, err := strconv.ParseUint(part1, 16, 64)
